@@ -16,6 +16,7 @@ package io
 import (
 	"math"
 	"reflect"
+	"strings"
 
 	"github.com/andot/complexconv"
 	"github.com/modern-go/reflect2"
@@ -37,7 +38,9 @@ func (dec *Decoder) stringToComplex64(s string) complex64 {
 // evaluates its argument as a constant expression in exact arithmetic: a dozen bytes like
 // 1e646456992+1e-646456992 cost it a gigabyte.
 func saneComplexText(s string) bool {
-	return len(s) <= 256 && saneExponents(s)
+	// (no digit separators: the parser accepts 1e6_4_6..., which hid the digits of an exponent
+	// from the count below)
+	return len(s) <= 256 && !strings.ContainsRune(s, '_') && saneExponents(s)
 }
 
 // saneExponents reports whether no exponent in s has more than four digits.
